@@ -11,6 +11,7 @@ Line protocol for C16 (activity-coefficient models).
   tab I                           the object is an `IdealActivityCoefficients`
   new <csv>                       the caller creates a float ndarray          → `id=<k>`
   newo <csv>                      the caller creates an ndarray of another dtype (int, float32) with these values
+  set <id> <csv>                  the caller overwrites that array in place          → `ok`
   call nd <id> <T>                `Gamma(x, T)` with that ndarray
   call seq <csv> <T>              `Gamma([..], T)` with a Python list
   f <id> <T>                      `Gamma.f(x, T, *Gamma.args)`
@@ -119,6 +120,12 @@ def step (st : St) (line : String) : St × String :=
       let (w', id) := st.w.alloc a
       ({ st with w := w', names := st.names.push id, other := id :: st.other }, s!"id={st.names.size}")
     | none => (st, "bad-op")
+  | ["set", id, xs] =>
+    -- the caller overwrites its own array in place
+    match id.toNat? >>= (st.names[·]?), floats? xs with
+    | some id, some a =>
+      if id < st.w.heap.size then ({ st with w := st.w.write id a }, "ok") else (st, "bad-op")
+    | _, _ => (st, "bad-op")
   | ["call", "nd", id, T] =>
     match id.toNat? >>= (st.names[·]?), parseFloat? T, st.obj with
     | some id, some T, .group kind tb it =>
